@@ -11,7 +11,39 @@ use crate::{
     vec_types::{Policy, VecCase},
 };
 
+/// How cases are generated and what makes one non-trivial / distinct, per property.
+fn describe(ctx: &mut Ctx) {
+    let vec_gen = "proptest-generated VecCase = (capacity, initial vector, optional probe subscriber, initial subscriber specs, <= 24 operations, final drop): operations are the eleven mutators, entry ops, for_each/entries traversals, transactions (with rollback, and subscriber drops/polls inside), mid-history subscriptions, limit changes, polls (once / k / until Pending), subscriber drops; indices are fractions resolved at run time; a third of the cases poll every stream with one shared waker; half of the subscriber handles are converted to streams only at their first poll. Interpreted against the real library and a plain-Vec model, taps at every adapter boundary. Distinct = distinct serialised case. ";
+    let obs_gen = "proptest-generated ObsCase = (flavour, unique/shared start, initial value, <= 30 calls over every public entry point incl. guards held across calls (sync) and handle operations); value = (key, payload) with Eq on both and Hash on key only; every return value and poll result compared with a version-free model after every call; a third of the cases use one shared waker. Distinct = distinct serialised case. ";
+    let thr = "Thread engine: fixed 2-3 thread programs whose complete release-order space at the __verif_hooks pause points is enumerated by stateless DFS (each schedule = one evaluation), proptest-generated directed programs (<= 3 threads x <= 3 ops, random schedule prefix), and proptest-generated free-running programs (2-4 threads x <= 6 ops, each executed 40 times on one set of worker threads; counted in thread_executions_judged). ";
+    let (rule, assumptions): (String, Vec<&str>) = match ctx.prop {
+        Prop::C01 => (format!("{obs_gen}Plus every history of <= 4 (quick) / 5 (thorough) calls from a 14-call alphabet (enumerated). Non-trivial = the history contains a conditional setter that did not store, a poll that became ready after >= 2 intervening updates, and a get/next_now followed by a poll of the same subscriber."), vec!["std's DefaultHasher::new() is keyed with constants (the harness computes the same hash)"]),
+        Prop::C02 => (format!("{obs_gen}{thr}Oracle: after every notifying update / closing drop the latest Pending waker of every pending subscriber has fired (single thread), and no poll returns Ready after a Pending poll whose waker was not woken since (all engines). Non-trivial (single thread) = >= 2 subscribers pending at the moment of an update or close; (threads) = a poll that returned Ready after a Pending poll of the same subscriber."), vec!["between pause points the OS schedules; a thread not reaching a pause point within 15 ms is presumed blocked (affects only which schedule is explored)"]),
+        Prop::C03 => (format!("{obs_gen}{thr}Oracle: poll == None iff the model's owner count is 0, upgrade succeeds iff an owner exists; threads: stream ended <=> no owner survived the join, and it ends once the rest is dropped. Non-trivial (single thread) = >= 2 handles dropped with a poll and a close or successful upgrade; (threads) = >= 2 drop/upgrade operations in the program."), vec!["as C02"]),
+        Prop::C04 => (format!("{thr}Recorded invocation/response tickets from one atomic counter; Wing-Gong search against a sequential register (set returns previous, set_if_not_eq, update adds, reads return latest), ending on the final value; guard sections: value stable inside a read guard, no operation both invoked and completed inside another thread's guard interval; a subscriber that is Pending after the join saw the final value last. Plus single-threaded histories in which try_read/try_write must refuse while the harness holds guards. Non-trivial = operations of different threads overlap in ticket time (threads) / a try_lock was refused (single thread)."), vec!["verdicts come only from recorded histories; timing changes coverage, not soundness"]),
+        Prop::C05 => (format!("{vec_gen}Raw subscribers (no adapter), eager or lag-bounded polling. Non-trivial = a mid-history subscription, a committed transaction of >= 2 diffs, and a poll with >= 2 updates pending."), vec!["message boundaries are observed through a harness-internal batched probe subscriber (85-100 % of the cases)"]),
+        Prop::C06 => (format!("{vec_gen}Raw subscribers, unconstrained lag, capacities 1..64. Non-trivial = at least one Reset delivered and another subscriber of the same case that never lagged."), vec!["tokio's broadcast channel may hold more than `capacity` messages (rounding up): only Reset => lag is asserted, never the converse"]),
+        Prop::C07 => (format!("{vec_gen}Transaction-heavy histories (bodies of 0-6 operations). Non-trivial = a transaction abandoned after >= 2 effective operations, or committed after a rollback, or a clear() after recorded diffs."), vec![]),
+        Prop::C08 => (format!("{vec_gen}Histories ending with the vector dropped (85 %). Non-trivial = some subscriber had undelivered updates (or was mid-batch) when the vector was dropped."), vec![]),
+        Prop::C09 => (format!("{vec_gen}Exactly one Head/Tail/Skip stage (nine variants). Non-trivial = the view was full at one compared instant and not full at another, with a limit change and a source operation between two polls (or no limit change at all for the fixed variants). The exact trigger of known finding K1 is substituted (excluded_known) or ends the case (known_finding_hits)."), vec!["K1 (Tail limit decrease with old > len > new >= 1) is excluded exactly; see KNOWN_FINDINGS.txt"]),
+        Prop::C10 => (format!("{vec_gen}Exactly one Filter/FilterMap stage, all 256 masks over key % 8. Non-trivial = the mask keeps some and drops some of the items present, and a Set flipped an item's status or a Reset arrived."), vec![]),
+        Prop::C11 => (format!("{vec_gen}Exactly one Sort/SortBy/SortByKey stage; comparators with ties; elements carry an identity so the permutation check is exact. Non-trivial = a compared view with two items that compare equal, and a Set that changed an item's sort key. Non-benign Truncate (K2) is substituted or ends the case."), vec!["K2 (Truncate reaching a sort stage unless every removed item sorts strictly after every kept one) is excluded exactly"]),
+        Prop::C12 => (format!("{vec_gen}Pipelines of 2-3 stages from all 14 kinds. Non-trivial = some diff crossed every stage boundary in one poll."), vec!["K1/K2 hits end the case (counted)"]),
+        Prop::C13 => (format!("{vec_gen}Batched pipelines of 0-3 stages, transaction-heavy; fixed-parameter pipelines get an unbatched twin. Non-trivial = a source batch of >= 2 diffs reached an adapter, or a multi-diff commit happened in a case whose twin was compared."), vec![]),
+        Prop::C14 => (format!("{vec_gen}All stream kinds, eager-heavy polling. Non-trivial = a limit change and a source operation both arrived while the stream was Pending (or, without dynamic stages, >= 4 polls)."), vec![]),
+        Prop::C15 => (format!("{vec_gen}Static Head/Tail alone and in chains; the bound is checked after every single diff by the tap. Non-trivial = an inserting diff arrived while the bounded view was full."), vec![]),
+        Prop::C16 => (format!("{obs_gen}Flavour Both: the case runs on the sync and on the async-lock flavour and the transcripts must be identical. Plus async-only histories with guards held across calls (AsyncCase: acquire/release guards, writer/reader/subscriber tasks under a hand-rolled executor). Non-trivial = the history contains a close and >= 2 polls (differential) / a task queued behind a guard completed after release or a subscriber polled under a write guard became ready (guards)."), vec!["the executor re-polls every woken task before anything is judged stuck"]),
+        Prop::C17 => (format!("{vec_gen}With explicit out-of-range calls and traversals. Non-trivial = >= 1 out-of-range call and a traversal in which a removal is followed by a non-keep decision."), vec!["the library's bounds panics are recognised by their wording (they are #[track_caller])"]),
+        Prop::C19 => (format!("{obs_gen}Handle-heavy histories, both flavours; all count functions compared after every call. Non-trivial = an into_shared or an upgrade, a subscriber clone and a dropped handle. Async: subscriber_count/strong_count equal to the K3 signature are accepted (excluded_known)."), vec!["K3: async-lock subscribers count twice"]),
+        Prop::C20 => (format!("{vec_gen}{obs_gen}Every element/value is an instrumented instance (fresh serial per construction and clone; registry per case). Non-trivial = a multi-diff message consumed across polls, a subscriber dropped with a backlog or mid-message or inside a transaction, a lagged subscriber at drop (vector cases); into_shared with live subscribers or a subscriber clone (observable cases)."), vec![]),
+        _ => return,
+    };
+    ctx.rule = rule;
+    ctx.assumptions = assumptions.into_iter().map(String::from).collect();
+}
+
 pub fn run_check(ctx: &mut Ctx) {
+    describe(ctx);
     match ctx.prop {
         Prop::C18 => c18(ctx),
         Prop::C05 | Prop::C06 | Prop::C07 | Prop::C08 | Prop::C09 | Prop::C10 | Prop::C11 | Prop::C12 | Prop::C13 | Prop::C14
